@@ -218,7 +218,7 @@ DStop   == \E s \in S : par[s] = 0 /\ run[s] /\ Stop(s)
 DFire   == \E t \in 1..ntok : Fire(t)
 DSetName == \E s \in S, k \in 0..K : SetName(s, k)
 DGet    == \E p \in S, k \in 1..K : Get(p, k)
-Next == ~wild /\ (DAdd \/ DDisown \/ DPriv \/ DStart \/ DStop \/ DFire \/ DSetName \/ DGet)
+Next == DAdd \/ DDisown \/ DPriv \/ DStart \/ DStop \/ DFire \/ DSetName \/ DGet
 
 -----------------------------------------------------------------------------
 (* What a user relies on. *)
